@@ -140,7 +140,7 @@ where
     };
     let criterion_count = first.len();
     assert!(
-        criterion_count < std::mem::size_of::<u16>(),
+        criterion_count <= u16::MAX as usize,
         "Too many criterions",
     );
 
